@@ -26,6 +26,7 @@ CONSTANTS
   DEV_NameCase,      \* names are compared exactly: `foo` and `FOO` are both accepted (the encoding is invalid)
   DEV_DefLocator,    \* define_type accepts the locator names (url=<..>, ...) that export() refuses
   DEV_KindBound,     \* (KF31) a name bound to a kind of item ([method]r.m, ...) is accepted for any item
+  DEV_UnnamedDef,    \* (KF32) define_type accepts the world type of a package; encode panics ("world must have an id")
   InitReg           \* packages registered before the explored history starts (registered by the
                      \* first operations of every history)
 
@@ -228,8 +229,11 @@ KF_DefRename(s) ==
 \* libraries has the shape of a resource method, constructor or static function)
 KF_KindBound(s) ==
   \E x \in DOMAIN s.imports \cup DOMAIN s.exports : x \in DOMAIN NameInfo /\ NameInfo[x].cls = "kindbound"
+\* a definition of a world (or interface) type that has no id of its own: the world of a registered package
+KF_UnnamedDef(s) == \E t \in DOMAIN s.defined : DefClass[t] = "world"
 KnownFindings(s) ==
-  (IF KF_UndefDep(s) THEN {"undefined-dependency"} ELSE {})
+  (IF KF_UnnamedDef(s) THEN {"unnamed-world-definition"} ELSE {})
+  \cup (IF KF_UndefDep(s) THEN {"undefined-dependency"} ELSE {})
   \cup (IF KF_DefRename(s) THEN {"definition-renamed"} ELSE {})
   \cup (IF KF_KindBound(s) THEN {"kind-bound-name"} ELSE {})
 
@@ -247,6 +251,7 @@ IEncodeOutcome(s) ==
      ELSE IF \E i \in IInstNodes(s) : s.nodes[i].sat # {e.lab : e \in {x \in In(s, i) : x.t = "arg"}}
           THEN {"ValidationFailure"}
      ELSE IF DEV_UndefDep /\ KF_UndefDep(s) /\ EncodeOutcome(abs) = {"ok"} THEN {"ValidationFailure"}
+     ELSE IF DEV_UnnamedDef /\ KF_UnnamedDef(s) THEN {"panic"}       \* (KF32) "world must have an id"
      ELSE IF DEV_KindBound /\ KF_KindBound(s) /\ EncodeOutcome(abs) = {"ok"} THEN {"ValidationFailure"}
      ELSE EncodeOutcome(abs)
 
@@ -304,7 +309,7 @@ Consistent ==
 QueriesAgree ==
   ~g.panic =>
     /\ IImportsImplicit(g) = GraphImportsImplicit(AbsView(g))
-    /\ (~KF_UndefDep(g) /\ ~KF_KindBound(g) => IEncodeOutcome(g) \subseteq EncodeOutcome(AbsView(g)))
+    /\ (~KF_UndefDep(g) /\ ~KF_KindBound(g) /\ ~KF_UnnamedDef(g) => IEncodeOutcome(g) \subseteq EncodeOutcome(AbsView(g)))
     /\ (~KF_DefRename(g) => IEncodedExportNames(g) = DOMAIN AbsView(g).exports)
 
 \* every step is a step the contract allows, with the contract's successor state
